@@ -1,6 +1,7 @@
 import OSProofs.Gauss
 import OSProofs.RealInst
 import OSProofs.Sched
+import OSProofs.LeafFacts
 import OSProofs.Props.C14
 import OSProofs.Props.C15
 import OSProofs.Props.C18
